@@ -22,7 +22,7 @@ def run(tier):
     r.outside += ["float constants", "heap shapes deeper than two levels", "the literal-chain kernel of the design (escape_string / "
                   "adjust_constant_string over all short strings) is not built in this round; two witness programs stand for it",
                   "loops"]
-    fam = progs.family_val() + progs.family_val_ctl(3)
+    fam = progs.family_val() + progs.family_val_ctl(3 if tier == "quick" else 4)
     wit = progs.val_witnesses()
     tcommon.drive(r, fam + wit, len(fam), "check_cover", "check_cover_reach", "every concrete value is covered, for all inputs",
                   "semantic", TABLES, tier, chunk=6)
@@ -30,4 +30,4 @@ def run(tier):
 
 
 def replay(rec):
-    return tcommon.replay_program(rec, "check_cover", "semantic", TABLES, progs.family_val() + progs.family_val_ctl(3) + progs.val_witnesses())
+    return tcommon.replay_program(rec, "check_cover", "semantic", TABLES, progs.family_val() + progs.family_val_ctl(4) + progs.val_witnesses())
